@@ -262,6 +262,7 @@ typedef struct {
 } Failure;
 
 static int want_ref;      /* also run the reference interpreter (C02x / C18) */
+static unsigned report_mask = ~0u; /* failure kinds reported in this mode */
 static int float_mode;    /* C18 comparison rules */
 static OrcExecutor *exA;  /* lives in the arena, flush against a guard page */
 static uint64_t run_count;
@@ -311,11 +312,13 @@ static void compute_taint (const ProgSpec *ps, const RunIO *io)
   /* re-interpret per element, tracking NaNs and min/max ties */
   int j, i, q, k;
   uint64_t val[GEN_MAX_VARS];
+  int has[GEN_MAX_VARS];
   size_t need = (size_t) io->n * io->m + 1;
   if (need > taint_cap) { taint_cap = need * 2; taint_buf = realloc (taint_buf, taint_cap); }
   memset (taint_buf, 0, need);
   for (j = 0; j < io->m; j++) for (i = 0; i < io->n; i++) {
     int t = 0;
+    memset (has, 0, sizeof has);
     for (q = 0; q < ps->ninsns; q++) {
       const PInsn *in = &ps->insns[q]; const RefOp *op = gen_op (in);
       uint64_t s[4] = { 0 }, d[2] = { 0 };
@@ -324,7 +327,7 @@ static void compute_taint (const ProgSpec *ps, const RunIO *io)
         const PVar *v; int vi = in->src[k], esz;
         if (!op->ssz[k]) continue;
         v = &ps->vars[vi]; esz = op->ssz[k] * in->mult;
-        if (v->kind == VK_TEMP) s[k] = val[vi];
+        if (v->kind == VK_TEMP || (v->kind == VK_DEST && has[vi])) s[k] = val[vi];
         else if (v->kind == VK_CONST || v->kind == VK_PARAM) {
           uint64_t sv = gen_scalar_value (v, io, vi);
           if ((op->flags & RF_SCALAR) && k >= 1) s[k] = sv;
@@ -343,17 +346,22 @@ static void compute_taint (const ProgSpec *ps, const RunIO *io)
           if (op->flags & RF_FLOAT_D) {
             uint64_t x = (d[0] >> (8 * op->dsz[0] * l)) & ref_mask (op->dsz[0]);
             if (op->dsz[0] == 4 ? ref_isnan32 ((uint32_t) x) : ref_isnan64 (x)) t = 1;
+            /* a result that is the smallest normal (or a flushed zero) in a multi-instruction program may be the
+             * flush-to-zero boundary case (see known finding C18-ftz-boundary); single-opcode programs report it */
+            if (ps->ninsns > 1 && (op->flags & RF_FLOAT_S) && (op->dsz[0] == 4 ? ((x & 0x7fffffffu) == 0x00800000u || (x & 0x7fffffffu) == 0)
+                : ((x & 0x7fffffffffffffffULL) == 0x0010000000000000ULL || (x & 0x7fffffffffffffffULL) == 0))) t = 1;
           }
           if (ismm) {
             uint64_t x = (s[0] >> (8 * fs * l)) & ref_mask (fs), y = (s[1] >> (8 * fs * l)) & ref_mask (fs);
             if (fs == 4) { uint32_t xa = (uint32_t) x, ya = (uint32_t) y; if (!(xa & 0x7f800000)) xa &= 0x80000000; if (!(ya & 0x7f800000)) ya &= 0x80000000;
-              if (xa != ya && ((xa | ya) & 0x7fffffff) == 0) t = 1; }
+              if (((xa | ya) & 0x7fffffff) == 0) t = 1; }
             else { uint64_t xa = x, ya = y; if (!(xa & 0x7ff0000000000000ULL)) xa &= 0x8000000000000000ULL; if (!(ya & 0x7ff0000000000000ULL)) ya &= 0x8000000000000000ULL;
-              if (xa != ya && ((xa | ya) & 0x7fffffffffffffffULL) == 0) t = 1; }
+              if (((xa | ya) & 0x7fffffffffffffffULL) == 0) t = 1; }
           }
         }
       }
-      for (k = 0; k < 2; k++) if (op->dsz[k] && ps->vars[in->dest[k]].kind == VK_TEMP) val[in->dest[k]] = d[k] & ref_mask (op->dsz[k] * in->mult);
+      for (k = 0; k < 2; k++) if (op->dsz[k] && (ps->vars[in->dest[k]].kind == VK_TEMP || ps->vars[in->dest[k]].kind == VK_DEST)) {
+        val[in->dest[k]] = d[k] & ref_mask (op->dsz[k] * in->mult); has[in->dest[k]] = 1; }
     }
     taint_buf[(size_t) j * io->n + i] = (uint8_t) t;
   }
@@ -383,7 +391,23 @@ static int compare_dests (const ProgSpec *ps, const RunCfg *cfg, const RunSetup 
         if (el >= a->lo && el < a->hi && rel >= 0) {
           uint64_t vx = gen_rd (px + (o - (size_t) (rel % a->esz)), a->esz), vy = gen_rd (py + (o - (size_t) (rel % a->esz)), a->esz);
           if (use_taint && taint_buf && el < cfg->n && taint_buf[(size_t) row * cfg->n + el]) { o += a->esz - 1 - (size_t) (rel % a->esz); continue; }
-          f->var = a->var; f->row = (int) row; f->elem = el;
+          f->var = a->var; f->row = (int) row; f->elem = el; f->sub[0] = 0;
+          if (use_taint) {
+            /* float destination: classify the flush-to-zero boundary (one side +-0, the other +-smallest normal) per lane */
+            int fs = 0, q2;
+            for (q2 = 0; q2 < ps->ninsns; q2++) { int kk; for (kk = 0; kk < 2; kk++) if (gen_op (&ps->insns[q2])->dsz[kk] && ps->insns[q2].dest[kk] == a->var && (gen_op (&ps->insns[q2])->flags & RF_FLOAT_D)) fs = gen_op (&ps->insns[q2])->dsz[kk]; }
+            if (fs) {
+              int l, allb = 1, anyd = 0;
+              for (l = 0; l < a->esz / fs; l++) {
+                uint64_t x = (vx >> (8 * fs * l)) & ref_mask (fs), y = (vy >> (8 * fs * l)) & ref_mask (fs);
+                uint64_t mn = fs == 4 ? 0x00800000ULL : 0x0010000000000000ULL, am = fs == 4 ? 0x7fffffffULL : 0x7fffffffffffffffULL;
+                if (x == y) continue;
+                anyd = 1;
+                if (!((((x & am) == 0 && (y & am) == mn) || ((y & am) == 0 && (x & am) == mn)) && ((x ^ y) & ~am) == 0)) allb = 0;
+              }
+              if (anyd && allb) snprintf (f->sub, sizeof f->sub, "ftz-boundary");
+            }
+          }
           snprintf (f->what, sizeof f->what, "%s[row %ld][%ld]: %s=%#llx %s=%#llx", ps->vars[a->var].name, row, el,
               X == 0 ? "native" : X == 1 ? "emulated" : "reference", (unsigned long long) vx,
               Y == 0 ? "native" : Y == 1 ? "emulated" : "reference", (unsigned long long) vy);
@@ -475,7 +499,7 @@ static int run_one (OrcProgram *p, ProgSpec *ps, const Tgt *tg, const RunCfg *cf
   if (!setup_run (ps, cfg, &rs)) return -1;
   fill_run (ps, cfg, &rs, want_ref);
   run_count++;
-#define PUSH(K) do { f.kind = (K); if (nf < nfl) fl[nf++] = f; } while (0)
+#define PUSH(K) do { f.kind = (K); if ((report_mask & (1u << (K))) && nf < nfl) fl[nf++] = f; } while (0)
   memset (&f, 0, sizeof f); f.var = -1;
 
   /* --- native --- */
@@ -512,7 +536,9 @@ static int run_one (OrcProgram *p, ProgSpec *ps, const Tgt *tg, const RunCfg *cf
   set_executor (&exB, p, ps, &rs.ioB);
   arena_armed = 1;
   if (sigsetjmp (arena_jmp, 1) == 0) {
-    orc_executor_emulate (&exB);
+    /* same caller state as the native run: the emulator inherits the caller's rounding mode just as JIT code does */
+    VhTramp st2; memset (&st2, 0, sizeof st2); memcpy (st2.seed, reg_seeds, sizeof reg_seeds); st2.mxcsr_in = cfg->mxcsr;
+    vh_tramp_call ((void (*)(void *)) orc_executor_emulate, &exB, &st2);
     arena_armed = 0;
   } else {
     vh_tramp_reset ();
@@ -523,8 +549,8 @@ static int run_one (OrcProgram *p, ProgSpec *ps, const Tgt *tg, const RunCfg *cf
   }
   /* --- reference --- */
   if (want_ref) {
+    if (float_mode) compute_taint (ps, &rs.ioC);   /* before the interpreter overwrites in-place destinations */
     gen_interp (ps, &rs.ioC);
-    if (float_mode) compute_taint (ps, &rs.ioC);
   }
   /* --- compare --- */
   {
@@ -549,7 +575,8 @@ static int run_one (OrcProgram *p, ProgSpec *ps, const Tgt *tg, const RunCfg *cf
     }
     accn++;
   }
-  if (want_ref) {
+  /* the reference computes in round-to-nearest: only comparable when the caller's rounding mode is RN */
+  if (want_ref && (!float_mode || (cfg->mxcsr & 0x6000) == 0)) {
     int r = compare_dests (ps, cfg, &rs, 1, 2, &f, float_mode);
     if (r == 1) PUSH (float_mode ? F_FLOAT : F_REF_EMU);
   }
@@ -563,131 +590,7 @@ static int run_one (OrcProgram *p, ProgSpec *ps, const Tgt *tg, const RunCfg *cf
   return nf;
 }
 
-/* ------------------------------------------------------------------ program enumeration */
-typedef struct { int op, mult, form; } SingleForm;
-/* form: bit0..1: second-operand kind (0 array, 1 const, 2 param); bit2: in-place dest; bit3: via temps (explicit chain);
- * bit4: src1==src2 */
-static SingleForm *single_forms;
-static int n_single;
-
-static int op_maxsz (const RefOp *op)
-{
-  int k, m = 0;
-  for (k = 0; k < 4; k++) if (op->ssz[k] > m && !((op->flags & RF_SCALAR) && k >= 1)) m = op->ssz[k];
-  for (k = 0; k < 2; k++) if (op->dsz[k] > m) m = op->dsz[k];
-  return m;
-}
-
-static void enumerate_single (unsigned profile)
-{
-  int i, mult, kind2, inplace, same;
-  single_forms = malloc (sizeof (SingleForm) * ref_n_ops * 40);
-  for (i = 0; i < ref_n_ops; i++) {
-    const RefOp *op = &ref_ops[i];
-    int binary = op->ssz[1] != 0 && op->kind == RK_ELEM;
-    int isf = (op->flags & (RF_FLOAT_S | RF_FLOAT_D)) != 0;
-    if (op->kind == RK_LOAD || op->kind == RK_STORE || op->kind == RK_LOADP) continue;
-    if (op->kind != RK_ELEM && op->kind != RK_ACC) { if (!(profile & GP_SPECIAL)) continue; }
-    else if (op->kind == RK_ACC) { if (!(profile & GP_ACC)) continue; }
-    else if (isf ? !(profile & GP_FLOAT) : !(profile & GP_INT)) continue;
-    for (mult = 1; mult <= 4; mult *= 2) {
-      if (op_maxsz (op) * mult > 8) continue;
-      if (mult > 1 && op->kind != RK_ELEM) continue;
-      for (kind2 = 0; kind2 < 3; kind2++) {
-        if (!binary && op->kind != RK_ACC && kind2 > 0) continue;
-        if (op->kind == RK_ACC && (kind2 > 0)) continue;
-        if (binary && (op->flags & RF_SCALAR) && kind2 == 0) continue;
-        for (inplace = 0; inplace < 2; inplace++) {
-          if (inplace && (op->kind != RK_ELEM || op->dsz[0] != op->ssz[0] || op->dsz[1])) continue;
-          for (same = 0; same < 2; same++) {
-            if (same && (!binary || kind2 != 0 || (op->flags & RF_SCALAR) || op->ssz[0] != op->ssz[1])) continue;
-            single_forms[n_single].op = i; single_forms[n_single].mult = mult;
-            single_forms[n_single].form = kind2 | (inplace << 2) | (same << 4);
-            n_single++;
-          }
-        }
-      }
-    }
-  }
-}
-
-static void build_single (ProgSpec *ps, const SingleForm *sf, VhRng *r)
-{
-  const RefOp *op = &ref_ops[sf->op];
-  int kind2 = sf->form & 3, inplace = (sf->form >> 2) & 1, same = (sf->form >> 4) & 1;
-  int k; PInsn *in;
-  char nm[40];
-  snprintf (nm, sizeof nm, "single_%s_x%d_f%d", op->name, sf->mult, sf->form);
-  gen_init (ps, nm);
-  in = gen_add_insn (ps, sf->op, sf->mult);
-  for (k = 0; k < 2; k++) if (op->dsz[k]) in->dest[k] = gen_add_var (ps, (op->flags & RF_ACC) ? VK_ACC : VK_DEST, op->dsz[k] * sf->mult);
-  for (k = 0; k < 4; k++) {
-    if (!op->ssz[k]) continue;
-    if (k == 0) {
-      if (inplace) in->src[0] = in->dest[0];
-      else { in->src[0] = gen_add_var (ps, VK_SRC, op->ssz[0] * sf->mult); if (op->kind != RK_ELEM && op->kind != RK_ACC) ps->vars[in->src[0]].special = op->kind; }
-    } else if (op->kind == RK_LOADOFF || op->kind == RK_RESNEAR || op->kind == RK_RESLIN) {
-      in->src[k] = gen_add_var (ps, VK_PARAM, 4);
-    } else if (same) {
-      in->src[k] = in->src[0];
-    } else if (kind2 == 0) {
-      in->src[k] = gen_add_var (ps, VK_SRC, op->ssz[k] * sf->mult);
-    } else if (kind2 == 1) {
-      uint64_t v = (op->flags & RF_SCALAR) ? gen_scalar_domain (r, op, k) : (op->flags & RF_FLOAT_S) ? gen_rand_float (r, op->ssz[k], 1) : gen_rand_value (r, op->ssz[k]);
-      in->src[k] = gen_add_var (ps, VK_CONST, op->ssz[k]); ps->vars[in->src[k]].value = v;
-    } else {
-      in->src[k] = gen_add_var (ps, VK_PARAM, op->ssz[k]);
-      if (op->flags & RF_FLOAT_S) ps->vars[in->src[k]].ptype = op->ssz[k] == 8 ? PT_DOUBLE : PT_FLOAT;
-    }
-  }
-}
-
-/* pairs: producer -> temp -> consumer */
-typedef struct { int op1, op2; } PairForm;
-static PairForm *pair_forms; static int n_pairs;
-static void enumerate_pairs (unsigned profile)
-{
-  int i, j;
-  pair_forms = malloc (sizeof (PairForm) * ref_n_ops * ref_n_ops);
-  for (i = 0; i < ref_n_ops; i++) for (j = 0; j < ref_n_ops; j++) {
-    const RefOp *a = &ref_ops[i], *b = &ref_ops[j];
-    if (a->kind != RK_ELEM || (b->kind != RK_ELEM && b->kind != RK_ACC)) continue;
-    if (!gen_op_allowed (a, profile) || !gen_op_allowed (b, profile)) continue;
-    if (a->dsz[0] != b->ssz[0]) continue;
-    pair_forms[n_pairs].op1 = i; pair_forms[n_pairs].op2 = j; n_pairs++;
-  }
-}
-
-static void build_pair (ProgSpec *ps, const PairForm *pf, VhRng *r)
-{
-  const RefOp *a = &ref_ops[pf->op1], *b = &ref_ops[pf->op2];
-  PInsn *in; int k, t, written[GEN_MAX_VARS] = { 0 };
-  char nm[40];
-  int variant = vh_randn (r, 4);
-  snprintf (nm, sizeof nm, "pair_%s_%s", a->name, b->name);
-  gen_init (ps, nm);
-  in = gen_add_insn (ps, pf->op1, 1);
-  t = gen_add_var (ps, VK_TEMP, a->dsz[0]); in->dest[0] = t;
-  if (a->dsz[1]) in->dest[1] = gen_add_var (ps, VK_TEMP, a->dsz[1]);
-  for (k = 0; k < 4; k++) if (a->ssz[k]) in->src[k] = gen_pick_src (ps, r, a, k, 1, 0, written, 1);
-  written[t] = 1; if (a->dsz[1]) written[in->dest[1]] = 1;
-  in = gen_add_insn (ps, pf->op2, 1);
-  for (k = 0; k < 2; k++) if (b->dsz[k]) in->dest[k] = gen_add_var (ps, (b->flags & RF_ACC) ? VK_ACC : VK_DEST, b->dsz[k]);
-  in->src[0] = t;
-  for (k = 1; k < 4; k++) if (b->ssz[k]) {
-    if (variant == 0 && b->ssz[k] == b->ssz[0] && !(b->flags & RF_SCALAR)) in->src[k] = t;         /* consumer uses the temp twice */
-    else in->src[k] = gen_pick_src (ps, r, b, k, 1, 0, written, 1);
-  }
-  if (variant == 1 && ps->ninsns < 3) {
-    /* keep the temp alive after the consumer: store it too */
-    int d = gen_add_var (ps, VK_DEST, ps->vars[t].size);
-    if (d >= 0) { in = gen_add_insn (ps, gen_op_index (gen_copy_name (ps->vars[t].size)), 1); in->dest[0] = d; in->src[0] = t; }
-  }
-  if (a->dsz[1]) {
-    int d = gen_add_var (ps, VK_DEST, a->dsz[1]);
-    if (d >= 0) { int t2 = ps->insns[0].dest[1]; in = gen_add_insn (ps, gen_op_index (gen_copy_name (ps->vars[t2].size)), 1); in->dest[0] = d; in->src[0] = t2; }
-  }
-}
+#include "progs.h"
 
 /* ------------------------------------------------------------------ case handling */
 static unsigned mode_profile;
@@ -977,19 +880,24 @@ int main (int argc, char **argv)
   finite_only = 1;
 
   if (!strcmp (mode, "c01")) {
+    report_mask = (1u << F_MISMATCH) | (1u << F_ACC) | (1u << F_FAULT_NATIVE) | (1u << F_FAULT_EMU) | (1u << F_CANARY_NATIVE) | (1u << F_CANARY_EMU) | (1u << F_ABI);
     mode_prop = "C01"; mode_profile = GP_INT | GP_ACC | GP_2D | GP_HINTS | GP_EXPLICIT_LS; mode_placements = 1 << PL_MID; want_ref = 0;
     N_single = -1; N_pairs = vh_args.thorough ? -1 : 1500; N_random = vh_args.thorough ? 30000 : 3000; N_special = vh_args.thorough ? 3000 : 300;
   } else if (!strcmp (mode, "c03")) {
+    report_mask = (1u << F_FAULT_NATIVE) | (1u << F_FAULT_EMU) | (1u << F_CANARY_NATIVE) | (1u << F_CANARY_EMU) | (1u << F_SRC_CHANGED) | (1u << F_ABI);
     mode_prop = "C03"; mode_profile = GP_INT | GP_FLOAT | GP_ACC | GP_2D | GP_HINTS | GP_EXPLICIT_LS | GP_SPECIAL; mode_placements = (1 << PL_TRAIL) | (1 << PL_LEAD); mode_striped = 1; want_ref = 0;
     N_single = -1; N_pairs = vh_args.thorough ? 4000 : 400; N_random = vh_args.thorough ? 20000 : 2000; N_special = vh_args.thorough ? 6000 : 600;
   } else if (!strcmp (mode, "c10")) {
+    report_mask = (1u << F_FAULT_NATIVE) | (1u << F_CANARY_NATIVE) | (1u << F_ABI);
     mode_prop = "C10"; mode_profile = GP_INT | GP_FLOAT | GP_ACC | GP_2D | GP_HINTS | GP_EXPLICIT_LS | GP_SPECIAL; mode_placements = (1 << PL_MID) | (1 << PL_TRAIL); want_ref = 0;
     N_single = -1; N_pairs = 300; N_random = vh_args.thorough ? 10000 : 1500; N_special = 200; N_regs = vh_args.thorough ? 6000 : 800;
   } else if (!strcmp (mode, "c18")) {
+    report_mask = (1u << F_FLOAT) | (1u << F_NAN) | (1u << F_MASK) | (1u << F_DENORMAL) | (1u << F_FAULT_NATIVE) | (1u << F_ABI);
     mode_prop = "C18"; mode_profile = GP_FLOAT | GP_HINTS | GP_2D; mode_placements = (1 << PL_MID) | (1 << PL_TRAIL); want_ref = 1; float_mode = 1; finite_only = 0;
     N_single = -1; N_pairs = -1; N_random = vh_args.thorough ? 20000 : 2500; N_special = 0;
   } else if (!strcmp (mode, "c02x")) {
     /* multi-instruction programs: emulation vs reference interpreter */
+    report_mask = (1u << F_REF_EMU) | (1u << F_FAULT_EMU) | (1u << F_CANARY_EMU);
     mode_prop = "C02"; mode_profile = GP_INT | GP_ACC | GP_2D | GP_EXPLICIT_LS | GP_SPECIAL; mode_placements = 1 << PL_MID; want_ref = 1;
     N_single = -1; N_pairs = vh_args.thorough ? -1 : 2000; N_random = vh_args.thorough ? 20000 : 2500; N_special = vh_args.thorough ? 3000 : 400;
   } else { fprintf (stderr, "unknown mode %s\n", mode); return 2; }
